@@ -160,7 +160,7 @@ fn c14_systematic() -> Vec<Layout> {
 }
 
 fn c14_corpus(tier: Tier, seed: u64) -> Vec<Layout> {
-    let n = tier.pick(240usize, 2400usize);
+    let n = tier.pick(600usize, 3000usize);
     let mut v = c14_systematic();
     let mut p = Profile::general();
     p.kinds = [3, 6, 4, 2, 2, 2, 1];
@@ -353,7 +353,7 @@ fn probes_for_field(l: &Layout, fi: usize, tag: &str, expect_r: bool, expect_w: 
 }
 
 pub fn run_c17(rc: &RunCtx) -> Outcome {
-    let n = rc.tier.pick(300usize, 3000usize);
+    let n = rc.tier.pick(600usize, 3000usize);
     let ro = RenderOpts::default();
     let mut layouts: Vec<Layout> = Vec::new();
     // part 1: every field with an rw twin over the same bits
@@ -569,7 +569,7 @@ fn discs_with_max(count: u128, maxd: u128) -> Option<Vec<u128>> {
 pub fn c10_corpus(tier: Tier, seed: u64) -> Vec<EnumDecl> {
     let mut out = Vec::new();
     let exhs = [Exh::True, Exh::False, Exh::Omitted, Exh::Conditional];
-    let max_n = tier.pick(6u32, 8u32);
+    let max_n = tier.pick(7u32, 8u32);
     for n in 1..=max_n {
         let full: u128 = 1 << n;
         let mut counts = vec![1u128, full - 1, full, full + 1];
